@@ -727,6 +727,42 @@ func c03DecisionTable(c *Ctx, R string) {
 		return true
 	})
 
+	// or a boolean holding `len(entriesWithPathErrors(…)) > 0` (or `== 0`)
+	var failedFlag types.Object
+	failedFlagMeansFail := true
+	if failed == nil {
+		ast.Inspect(find.Decl.Body, func(n ast.Node) bool {
+			as, ok := n.(*ast.AssignStmt)
+			if !ok || len(as.Lhs) != 1 || len(as.Rhs) != 1 {
+				return true
+			}
+			be, ok := ast.Unparen(as.Rhs[0]).(*ast.BinaryExpr)
+			if !ok {
+				return true
+			}
+			lc, ok := ast.Unparen(be.X).(*ast.CallExpr)
+			if !ok || exprStr(lc.Fun) != "len" || len(lc.Args) != 1 {
+				return true
+			}
+			inner, ok := ast.Unparen(lc.Args[0]).(*ast.CallExpr)
+			if !ok || !isCallTo(info, inner, "internal/discovery.entriesWithPathErrors") {
+				return true
+			}
+			if k, isC := constInt(info, be.Y); isC && k == 0 {
+				switch be.Op {
+				case token.GTR, token.NEQ:
+					failedFlag, failedFlagMeansFail = objOf(info, as.Lhs[0]), true
+				case token.EQL, token.LEQ:
+					failedFlag, failedFlagMeansFail = objOf(info, as.Lhs[0]), false
+				}
+			}
+			return true
+		})
+		if failedFlag != nil {
+			failed = failedFlag // for the per-file test below: same requirements
+		}
+	}
+
 	// the "this file has parse errors" list is per file: declared inside the loop
 	// over the changed files, directly from entriesWithPathErrors(entries of this file)
 	{
@@ -790,6 +826,13 @@ func c03DecisionTable(c *Ctx, R string) {
 					}
 				}
 			}
+		case *ast.Ident:
+			if failedFlag != nil && info.Uses[x] == failedFlag {
+				if failedFlagMeansFail {
+					return !v.noFail, ""
+				}
+				return v.noFail, ""
+			}
 		case *ast.SelectorExpr:
 			if objOf(info, x.X) == me {
 				switch x.Sel.Name {
@@ -807,8 +850,10 @@ func c03DecisionTable(c *Ctx, R string) {
 		return false, "guard `" + exprStr(e) + "` is not a formula over the five atoms; "
 	}
 
-	var exec func(stmts []ast.Stmt, v c03Val, out *c03Outcome)
-	exec = func(stmts []ast.Stmt, v c03Val, out *c03Outcome) {
+	// exec runs the statements under valuation v; it reports true when the iteration was
+	// left by `continue` (nothing after it happens for this entry)
+	var exec func(stmts []ast.Stmt, v c03Val, out *c03Outcome) bool
+	exec = func(stmts []ast.Stmt, v c03Val, out *c03Outcome) bool {
 		for _, st := range stmts {
 			switch x := st.(type) {
 			case *ast.SwitchStmt:
@@ -833,13 +878,17 @@ func c03DecisionTable(c *Ctx, R string) {
 						}
 					}
 					if hit {
-						exec(cc.Body, v, out)
+						if exec(cc.Body, v, out) {
+							return true
+						}
 						taken = true
 						break
 					}
 				}
 				if !taken && deflt != nil {
-					exec(deflt.Body, v, out)
+					if exec(deflt.Body, v, out) {
+						return true
+					}
 				}
 			case *ast.AssignStmt:
 				for i, l := range x.Lhs {
@@ -864,25 +913,63 @@ func c03DecisionTable(c *Ctx, R string) {
 					}
 				}
 			case *ast.IfStmt:
-				// allowed only if the body neither sets State nor appends to entries
+				// an `if` that decides about State/append/continue must be a formula over the atoms;
+				// any other `if` (logging, line arithmetic) is skipped
 				touches := false
 				ast.Inspect(x, func(n ast.Node) bool {
-					if as, ok := n.(*ast.AssignStmt); ok {
-						for _, l := range as.Lhs {
+					switch y := n.(type) {
+					case *ast.AssignStmt:
+						for _, l := range y.Lhs {
 							if fieldSel(info, l, "internal/discovery.Entry", "State") || (entriesObj != nil && objOf(info, l) == entriesObj) {
 								touches = true
 							}
 						}
+					case *ast.BranchStmt:
+						if y.Tok == token.CONTINUE && y.Label == nil {
+							touches = true
+						}
+					case *ast.ForStmt, *ast.RangeStmt, *ast.FuncLit:
+						return false
 					}
 					return true
 				})
 				if touches {
-					out.undec += "State/append under an `if` inside the decision region; "
+					if x.Init != nil {
+						out.undec += "State/append under an `if` with an init statement inside the decision region; "
+						continue
+					}
+					b, u := eval(x.Cond, v)
+					if u != "" {
+						out.undec += "State/append under an `if` inside the decision region whose condition is not over the atoms; "
+						continue
+					}
+					if b {
+						if exec(x.Body.List, v, out) {
+							return true
+						}
+					} else if x.Else != nil {
+						switch e := x.Else.(type) {
+						case *ast.BlockStmt:
+							if exec(e.List, v, out) {
+								return true
+							}
+						case *ast.IfStmt:
+							if exec([]ast.Stmt{e}, v, out) {
+								return true
+							}
+						}
+					}
 				}
-			case *ast.BranchStmt, *ast.ReturnStmt:
+			case *ast.BranchStmt:
+				if x.Tok == token.CONTINUE && x.Label == nil {
+					return true
+				}
+				out.undec += "jump inside the decision region; "
+			case *ast.ReturnStmt:
 				out.undec += "jump inside the decision region; "
 			}
 		}
+		return false
 	}
 
 	for bits := 0; bits < 32; bits++ {
